@@ -69,6 +69,14 @@ func init() {
 		c.Weights["scalein"] = 8
 		c.Weights["replicas"] = 8
 		c.Weights["mkpod"] = 5
+		c.Weights["pvcterm"] = 3
+		if r.Chance(0.4) {
+			for i := range c.Sets {
+				if c.Sets[i].Claims == 0 {
+					c.Sets[i].Claims = 1
+				}
+			}
+		}
 	}}
 
 	// claims: templates, claim cache lag, lister faults
@@ -81,6 +89,7 @@ func init() {
 			}
 		}
 		c.Weights["listerfault"] = 4
+		c.Weights["pvcterm"] = 3
 		c.Weights["scalein"] = 8
 		c.Weights["scaleout"] = 8
 		c.Weights["replicas"] = 6
@@ -344,7 +353,7 @@ func init() {
 		}
 		c.Chaos = r.Range(30, 160)
 	}, Prefix: func(r *PRNG, c *Config) []Step {
-		out := []Step{{K: "mkbset", A: 0, B: r.Intn(4), C: r.Intn(6), D: r.Intn(1000)}}
+		out := []Step{{K: "mkbset", A: 0, B: r.Intn(4) | (r.Intn(5)/4)<<2, C: r.Intn(6), D: r.Intn(1000)}}
 		if r.Chance(0.7) {
 			out = append(out, Step{K: "boot"})
 		}
